@@ -44,4 +44,10 @@ def nernst_potential(
         F = constants.Faraday_constant
         R = constants.molar_gas_constant
 
-    return (R * T) / (charge * F) * backend.log(ion_conc_out / ion_conc_in)
+    ratio = ion_conc_out / ion_conc_in
+    if hasattr(ratio, "dimensionality"):
+        # e.g. mM / M: convert to a pure number (raises if not dimensionless)
+        from ..units import to_unitless
+
+        ratio = to_unitless(ratio)
+    return (R * T) / (charge * F) * backend.log(ratio)
